@@ -8,6 +8,7 @@ import (
 	"fmt"
 	"sync"
 	"sync/atomic"
+	"time"
 
 	"k8s.io/apimachinery/pkg/runtime"
 	clienttesting "k8s.io/client-go/testing"
@@ -44,9 +45,10 @@ type stubClientSets struct {
 	allocate allocateFn
 	acquire  acquireFn
 
-	allocCalls   int64
-	acquireCalls int64
-	readyCalls   int64
+	allocCalls      int64
+	acquireCalls    int64
+	acquireInflight int32 // acquire calls currently inside a reactor
+	readyCalls      int64
 }
 
 func newStubClientSets(id string, poolSize int) *stubClientSets {
@@ -85,6 +87,8 @@ func newStubClientSets(id string, poolSize int) *stubClientSets {
 			}
 			req, _ := ca.GetObject().(*proxyv1alpha1.RateLimitAcquire)
 			atomic.AddInt64(&s.acquireCalls, 1)
+			atomic.AddInt32(&s.acquireInflight, 1)
+			defer atomic.AddInt32(&s.acquireInflight, -1)
 			s.mu.Lock()
 			fn := s.acquire
 			s.mu.Unlock()
@@ -206,6 +210,16 @@ func (g *gateway) fc() flowcontrol.FlowControl { return g.lim.GetOrDefault(schem
 func (g *gateway) reconcileOnce() { flowcontrols.VerifReconcileOnce(g.lim) }
 
 func (g *gateway) close() {
+	// Quiesce first: on this tree the goroutine that processes an acquire answer reads globalCounterManager.counterMap
+	// without the lock (remote_counter.go, doAcquire), and stopping the limiter deletes from that map: tearing down with an
+	// answer on its way can end the whole test process with "fatal error: concurrent map read and map write". That crash
+	// is not what this check is about (and would make it flaky), so: no new requests, wait for the ones inside the stub,
+	// give their goroutines time to finish.
+	g.cs.setUnknown(true)
+	for i := 0; i < 400 && atomic.LoadInt32(&g.cs.acquireInflight) != 0; i++ {
+		time.Sleep(5 * time.Millisecond)
+	}
+	time.Sleep(20 * time.Millisecond)
 	flowcontrols.VerifStop(g.lim)
 	g.cancel()
 	for _, c := range g.lim.AllFlowControls() {
